@@ -265,7 +265,7 @@ func specGrpcCode(r *R) (codes.Code, bool) {
 		case "grpc":
 			return codes.Code(r.I[0]), true
 		case "wrap", "withmessage", "hint", "detail", "domain", "withstack", "assert", "issuelink", "telemetry", "tags",
-			"mark", "secondary", "http", "safedetails", "wrapf", "withmessagef", "pkgmsg", "pkgstack", "patherror", "linkerror",
+			"mark", "secondary", "http", "safedetails", "hintf", "detailf", "wrapf", "withmessagef", "pkgmsg", "pkgstack", "patherror", "linkerror",
 			"syscallerror", "operror", "uwrap":
 			r = r.Kids[0]
 		case "combine":
